@@ -96,6 +96,28 @@ class Check:
             self.anchor_lost(rule, key, '%s: %s @ %s' % (type(e).__name__, e, tb[-3].strip() if len(tb) >= 3 else ''))
         return None
 
+    def guard_soft(self, rule, key, fn, twins):
+        """guard() for a shape rule whose clause is also decided functionally (by interpretation, independent of code shape) by
+        the rule instances `twins`, which must have run before: when the shape is not recognised (anchor lost) and every
+        twin reported OK on this tree, the instance is recorded as UNDECIDED-SHAPE (no alarm: the clause is decided by the
+        twins); a recognised shape that violates the rule is still reported, and without an OK twin the rule fails closed."""
+        try:
+            return fn()
+        except Exception as e:
+            ok = {i['key'] for i in self.instances if i['status'] == 'OK'}
+            if twins and all(t in ok for t in twins) and not self.only:
+                self.instances.append(dict(rule=rule, key=key, status='UNDECIDED-SHAPE', where='',
+                                           detail='shape not recognised (%s: %s); clause decided by %s' % (type(e).__name__, _short(str(e), 160), ', '.join(twins))))
+                print('SKIP rule=%s key=%s shape not recognised; clause decided by %s' % (rule, key, ', '.join(twins)))
+                return None
+            if isinstance(e, AnchorLost):
+                self.anchor_lost(rule, key, e)
+            else:
+                import traceback
+                tb = traceback.format_exc().strip().splitlines()
+                self.anchor_lost(rule, key, '%s: %s @ %s' % (type(e).__name__, e, tb[-3].strip() if len(tb) >= 3 else ''))
+        return None
+
     def floor(self, rule, what, count, floor):
         key = '%s:floor:%s' % (rule, what)
         if count < floor:
